@@ -186,12 +186,12 @@ V("c17-fit-unordered", "C17", FIT, "                iterator = pool.imap(_fit_pr
 V("c17-benign-serial-comprehension", "C17", "analysis/drt/tr_nnls.py", "        g_tau = _solve(A_tikh, b, maxiter)\n        prog.increment()\n", "        g_tau = _solve(A_tikh, b, maxiter)\n        prog.increment(1)\n", "silent")
 
 # ---------------------------------------------------------------- C12
-V("c12-min-max-swapped", "C12", FIT, "                min=lower_limits[symbol],\n                max=upper_limits[symbol],", "                min=upper_limits[symbol],\n                max=lower_limits[symbol],", "fire", "_to_lmfit:min")
-V("c12-vary-fixed", "C12", FIT, "                vary=not fixed[symbol],", "                vary=fixed[symbol],", "fire", "_to_lmfit:vary")
+V("c12-min-max-swapped", "C12", FIT, "                min=lower_limits[symbol],\n                max=upper_limits[symbol],", "                min=upper_limits[symbol],\n                max=lower_limits[symbol],", "fire", "_to_lmfit:semantics")
+V("c12-vary-fixed", "C12", FIT, "                vary=not fixed[symbol],", "                vary=fixed[symbol],", "fire", "_to_lmfit:semantics")
 V("c12-fit-original", "C12", FIT, "    circuit = deepcopy(original_circuit)", "    circuit = original_circuit", "fire", "original-used")
 V("c12-no-writeback", "C12", FIT, "    _from_lmfit(fit.params, identifiers)\n\n    return (\n        circuit,\n        _calculate_pseudo_chisqr", "    return (\n        circuit,\n        _calculate_pseudo_chisqr", "fire", "no-writeback")
 V("c12-winner-reversed", "C12", FIT, "        fits.sort(key=lambda _: log(_[1]) if _[2] is not None else inf)", "        fits.sort(key=lambda _: log(_[1]) if _[2] is not None else inf, reverse=True)", "fire", "fit_circuit:winner")
-V("c12-limit-refusal-dropped", "C12", FIT, "            if not (lower_limits[symbol] <= value <= upper_limits[symbol]):\n                raise ValueError(\n                    f\"Expected {lower_limits[symbol]=} <= {value} <= {upper_limits[symbol]=} for {symbol=}\"\n                )\n\n", "", "fire", "limit-refusal")
+V("c12-limit-refusal-dropped", "C12", FIT, "            if not (lower_limits[symbol] <= value <= upper_limits[symbol]):\n                raise ValueError(\n                    f\"Expected {lower_limits[symbol]=} <= {value} <= {upper_limits[symbol]=} for {symbol=}\"\n                )\n\n", "", "fire", "_to_lmfit:semantics")
 V("c12-params-other-circuit", "C12", FIT, "        parameters=_extract_parameters(circuit, fit),", "        parameters=_extract_parameters(deepcopy(circuit), fit),", "fire", "parameters-source")
 V("c12-benign-comment", "C12", FIT, "    circuit = deepcopy(original_circuit)", "    # work on a private copy\n    circuit = deepcopy(original_circuit)", "silent")
 
